@@ -56,6 +56,12 @@ def strategy_case(draw):
         ax = sorted(draw(st.lists(st.integers(0, d - 1), min_size=1, max_size=d, unique=True)))
         case["axis"] = ax
         case["y"] = draw(gen.tt_spec(N=[x["N"][i] for i in ax], dt=x["dt"], mode=x["mode"]))
+        if len(ax) >= 2 and draw(st.integers(0, 3)) == 0:
+            # the axis list in another order: mode k of b goes with mode axis[k] of a (accept-or-correct)
+            listed = list(draw(st.permutations(ax)))
+            if listed != ax:
+                case["axis_listed"] = listed
+                case["y"] = draw(gen.tt_spec(N=[x["N"][i] for i in listed], dt=x["dt"], mode=x["mode"]))
         if draw(st.integers(0, 7)) == 0:
             case["negative"] = [draw(st.booleans()) for _ in ax]
             if not any(case["negative"]):
@@ -214,6 +220,22 @@ def execute(case):
         ax = case["axis"]
         yc = core.make_cores(case["y"])
         y = T.TT(core.clone_cores(yc))
+        if case.get("axis_listed"):
+            ck.label("dot_axis_not_ascending")
+            listed = case["axis_listed"]
+            try:
+                got = lib(lambda: T.dot(x, y, list(listed)))
+            except core.LibraryException as e:
+                if type(e.orig).__name__ in LIBERR:
+                    ck.label("dot_axis_not_ascending_rejected")
+                    return ck.verdict()
+                raise
+            yd, ya = dense(yc), dense_abs(yc)
+            kept = [i for i in range(d) if i not in ax]
+            ref = torch.tensordot(xd, yd.conj(), dims=(list(listed), list(range(len(listed)))))
+            ref_abs = torch.tensordot(xa, ya, dims=(list(listed), list(range(len(listed)))))
+            _tt_or_scalar(ck, T, got, ref, ref_abs, exact, dt, C * max(case["y"]["R"]), False, len(kept) == 0, "dot_axis")
+            return ck.verdict()
         if case.get("negative"):
             ck.label("negative_axis")
             neg = [i - d if f else i for i, f in zip(ax, case["negative"])]
